@@ -16,7 +16,7 @@ ASSUMPTIONS = ["total up-scaling factor <= 2.5 (the half-pixel-centre convention
                "RGB pipelines (coordinate coding needs three channels); the fit must use >= 12 intact pixels with rms residual < 0.35 px, otherwise the case is inconclusive",
                "registration tolerance: 1 output pixel, plus the explicit integer-size rounding of resizing (frac(W*scale) for apply_resizer, 0.5 px for the size matcher)"]
 SHARDS = {"quick": 8, "thorough": 16}
-N = {"quick": 1100, "thorough": 26000}
+N = {"quick": 1100, "thorough": 80000}
 BUDGET = {"quick": 110, "thorough": 1500}
 TIMEOUT = {"quick": 700, "thorough": 3000}
 SELF_SHARDED = True
